@@ -498,7 +498,7 @@ def replay_one(mod, data, ctx):
 
 
 def _write_replay(prop, failure):
-    d = os.path.join(VERIF_DIR, 'replays', prop)
+    d = os.path.join(os.environ.get('VERIF_FOUND_DIR') or os.path.join(VERIF_DIR, 'replays'), prop)
     os.makedirs(d, exist_ok=True)
     body = {'property': prop, 'entry': failure['entry'], 'kind': failure['kind'],
             'case': failure['case'], 'message': failure['message'], 'signature': failure['signature']}
@@ -526,7 +526,7 @@ def _sanitize(obj):
 
 
 def _write_evidence(mod, prop, tier, seed, merged, wall, violations, extra):
-    path = os.path.join(VERIF_DIR, 'evidence', prop + '.json')
+    path = os.path.join(os.environ.get('VERIF_EVIDENCE_DIR') or os.path.join(VERIF_DIR, 'evidence'), prop + '.json')
     os.makedirs(os.path.dirname(path), exist_ok=True)
     cov = {
         'evaluations': merged['evaluations'],
